@@ -291,6 +291,35 @@ def task_construct(ctx, repo, m):
                 'base.%d.is_%s' % (i_, kind), o.pc,
                 (S.to_z3(S.to_bool(v)) == want) if v is not None
                 else z3.BoolVal(False), W))
+    # a manager that is given OTHER arrays (a second NNPS built with the
+    # same `domain=` object does that) starts without ghost buffers: the
+    # buffers are clones of the arrays served before (their properties, their
+    # number)
+    try:
+        fsp = m.methods('CPUDomainManager')['set_pa_wrappers']
+        o_ = SymObject('CPUDomainManager', dict(
+            ghosts=['old buffer'], props=None, pa_wrappers=['old'],
+            narrays=1, copy_props=[None]), 'self')
+        o_.module = m
+        fbase = m.methods('DomainManagerBase')['set_pa_wrappers']
+        base_call = CalleeContract(lambda e, s_, a, k, n: e.inline_call(
+            e.module, fbase, list(a), dict(k), s_, n))
+        ex = Executor(repo, m, qualname='CPUDomainManager.set_pa_wrappers',
+                      merge=False, contracts={
+                          'DomainManagerBase.set_pa_wrappers': base_call,
+                          'CPUDomainManager.set_pa_wrappers': base_call,
+                          'set_pa_wrappers': base_call})
+        new_w = [('wrapper', 0), ('wrapper', 1)]
+        outs = ex.exec_function(fsp, dict(self=o_, wrappers=new_w))
+        at = outs[0].state.env['self'].attrs if len(outs) == 1 else {}
+        ok = len(outs) == 1 and at.get('ghosts') is None and \
+            at.get('pa_wrappers') == new_w and at.get('narrays') == 2 and \
+            at.get('copy_props') == [None, None]
+        ctx.function(m, fsp, 'CPUDomainManager.set_pa_wrappers', ex.dropped)
+    except (VCError, KeyError) as e:
+        ok = False
+    obs.append(Obligation('new_arrays_start_without_ghost_buffers', [],
+                          z3.BoolVal(bool(ok)), W))
     for o_ in obs:
         o_.extra = dict(o_.extra or {}, backends=['z3'])
     ctx.prove('construct.arguments_reach_the_ghost_builder', obs,
@@ -537,6 +566,25 @@ if bad is None:
                 nn.update_domain(); nn.update()
             if bad: break
         if bad: break
+if bad is None:
+    # one DomainManager serving a second NNPS with other (and more) arrays
+    dm = DomainManager(xmin=0, xmax=1, periodic_in_x=True)
+    a = get_particle_array(name='a', x=np.arange(0.05, 1, 0.1), h=0.05)
+    a.add_property('foo')
+    nn = LinkedListNNPS(dim=1, particles=[a], domain=dm)
+    b = get_particle_array(name='b', x=np.arange(0.05, 1, 0.1), h=0.05)
+    c = get_particle_array(name='c', x=np.arange(0.02, 1, 0.1), h=0.05)
+    try:
+        nn2 = LinkedListNNPS(dim=1, particles=[b, c], domain=dm)
+        if 'foo' in b.properties:
+            bad = dict(case='DomainManager re-used for other arrays', problem='array b acquired property foo of the array served before')
+        else:
+            gb = sorted(round(float(v), 9) for v, t in zip(b.get('x', only_real_particles=False), b.get('tag', only_real_particles=False)) if t != 0)
+            # layer = n_layers (2) * radius_scale (2) * h (0.05) = 0.2
+            if gb != [-0.15, -0.05, 1.05, 1.15]:
+                bad = dict(case='DomainManager re-used for other arrays', ghosts_of_b=gb, expected=[-0.15, -0.05, 1.05, 1.15])
+    except Exception as e:
+        bad = dict(case='DomainManager re-used for more arrays than before', raised='%s: %s' % (type(e).__name__, e))
 if bad is None:
     # two arrays with different smoothing lengths: the ghost layer of EVERY
     # array is n_layers * radius_scale * (largest h over all arrays)
